@@ -837,12 +837,47 @@ pub fn check(rep: &mut Report) {
     // `Rc` environments are not Send: each worker rebuilds its own reference environment
     let base = sess.ctx.clone();
     drop(sess);
-    let rendered: Vec<E> = exprs;
-    let outs: Vec<Result<&'static str, String>> = par_map(
-        n_exprs,
+    // Phase 1: expressions that do not call the recursive scaffold functions (they terminate
+    // whatever the implementation does); phase 2: the rest.  If phase 1 already shows a violation
+    // that is not a recorded finding, phase 2 is skipped: a broken implementation may loop forever in
+    // it, and the phase-1 counterexamples are the smaller ones anyway.
+    let mut rendered: Vec<E> = exprs;
+    rendered.sort_by_key(|e| {
+        let t = e.render();
+        t.contains("fib(") || t.contains("fact(") || t.contains("fib)") || t.contains("fact)") || t.contains("|> fib") || t.contains("|> fact")
+    });
+    let n1 = rendered.iter().filter(|e| {
+        let t = e.render();
+        !(t.contains("fib(") || t.contains("fact(") || t.contains("fib)") || t.contains("fact)") || t.contains("|> fib") || t.contains("|> fact"))
+    }).count();
+    let mut outs: Vec<Result<&'static str, String>> = par_map(
+        n1,
         || reference_env(&scaffold()).expect("scaffold"),
         |env, i| judge(&base, env, &rendered[i]),
     );
+    let known: Vec<String> = load_known_findings().into_iter().filter(|k| k.property == "C09").map(|k| k.key).collect();
+    let fresh_in_phase1 = outs.iter().zip(rendered.iter()).any(|(o, e)| match o {
+        Err(m) if m.starts_with("MACHINERY") => false,
+        Err(m) => {
+            let key = if let Some(rest) = m.strip_prefix("CLASS:") { format!("class:{}", rest.split(' ').next().unwrap_or("")) } else if m.starts_with("PANIC") { format!("callsite:{}", m.split(" at ").last().unwrap_or("")) } else { format!("input:{}", e.render()) };
+            !known.contains(&key)
+        }
+        _ => false,
+    });
+    let n_exprs = if fresh_in_phase1 {
+        rep.set("phase_2_skipped", json!("phase 1 (expressions without recursive calls) found violations that are not recorded findings"));
+        rep.exhaustive = false;
+        n1
+    } else {
+        let rest: Vec<Result<&'static str, String>> = par_map(
+            n_exprs - n1,
+            || reference_env(&scaffold()).expect("scaffold"),
+            |env, i| judge(&base, env, &rendered[n1 + i]),
+        );
+        outs.extend(rest);
+        n_exprs
+    };
+    rendered.truncate(n_exprs);
     rep.states = n_exprs as u64;
     let (mut agree, mut unspec) = (0u64, 0u64);
     for (i, o) in outs.into_iter().enumerate() {
